@@ -207,8 +207,11 @@ def history_job(job):
 def api_job(job):
     from harness import run_impl
 
-    seed, aggs = job
+    seed, aggs = job[:2]
+    d_office = job[2] if len(job) > 2 else None
     rng = random.Random(seed)
+    if d_office:
+        return api_job_district(seed, list(aggs), d_office)
     # close contests in six states, half of the units outstanding: the summary is uncertain, so its three numbers differ per level
     case = gen.gen_case(rng, pi_method="bootstrap", office="S", n_states=6, n_units=96, tossup=True, frac_reporting=0.5, n_unexpected=0, aggregates=list(aggs), alphas=[0.9],
                         blocklist=False)
@@ -256,21 +259,50 @@ def api_job(job):
     return out
 
 
+def api_job_district(seed, aggs, office):
+    """a district office (districts 1, 10, 2, 3 in each state: string order differs from numeric order): the summary's prediction is the base plus the
+    weights of exactly the districts the district table reports as positive, and it is ordered at every level"""
+    from harness import run_impl
+
+    rng = random.Random(seed)
+    case = gen.gen_case(rng, pi_method="bootstrap", office=office, n_states=2, n_districts=4, n_units=170, tossup=True, frac_reporting=0.5, n_unexpected=0,
+                        aggregates=list(aggs), alphas=[0.9], blocklist=False)
+    r = run_impl.run_case(case, want_client=True)
+    out = {"job": [seed, list(aggs), office], "ok": r["ok"], "exc": r["exc"]}
+    if not r["ok"]:
+        return out
+    try:
+        rows = r["tables"]["district_data"].to_dict("records")
+        names = sorted(f"{x['postal_code']}_{x['district']}" for x in rows)
+        weights = {n: float(2 ** i) for i, n in enumerate(names)}                 # every subset of districts has its own total
+        weights = {n: weights[n] for n in sorted(weights, reverse=True)}
+        df = r["client"].get_national_summary_votes_estimates(weights, 5, [0.7, 0.9])
+        out["summary"] = df.to_dict("records")
+        out["summary2"], out["expected2"], out["wrong_client"] = [], None, ["rejected", "rejected"]
+        out["expected1"] = 5 + sum(weights[f"{x['postal_code']}_{x['district']}"] for x in rows if x["pred_margin"] > 0)
+        if case["params"]["model_parameters"].get("agg_model_hard_threshold", True) is False:
+            out["expected1"] = None
+    except Exception as e:  # noqa: BLE001
+        out["sum_exc"] = (type(e).__name__, str(e)[:200])
+    return out
+
+
 def api_called_job(seed):
     """through the client: every contest called for its leader -> no uncertainty left in the summary (state office and district office)"""
     from harness import run_impl
 
     rng = random.Random(seed)
-    office = ["S", "H"][seed % 2]
-    extra = {"n_districts": 3, "n_units": 120} if office == "H" else {"n_units": 90}
+    office = ["S", ["H", "Y", "Z"][(seed // 2) % 3]][seed % 2]          # every district office, not only the House
+    dist = office in ("H", "Y", "Z")
+    extra = {"n_districts": 4, "n_units": 150} if dist else {"n_units": 90}      # districts 1, 10, 2, 3: string order differs from numeric order
     case = gen.gen_case(rng, pi_method="bootstrap", office=office, n_states=2, n_unexpected=0, alphas=[0.9], blocklist=False,
-                        aggregates=["postal_code", "district", "unit"] if office == "H" else ["postal_code", "unit"], **extra)
+                        aggregates=["postal_code", "district", "unit"] if dist else ["postal_code", "unit"], **extra)
     r0 = run_impl.run_case(case)
     out = {"seed": seed, "office": office, "ok": r0["ok"], "exc": r0["exc"]}
     if not r0["ok"]:
         return out
-    tbl = r0["tables"]["district_data" if office == "H" else "state_data"]
-    name = (lambda row: f"{row['postal_code']}_{row['district']}") if office == "H" else (lambda row: row["postal_code"])
+    tbl = r0["tables"]["district_data" if dist else "state_data"]
+    name = (lambda row: f"{row['postal_code']}_{row['district']}") if dist else (lambda row: row["postal_code"])
     rows = tbl.to_dict("records")
     lhs = [name(x) for x in rows if x["pred_margin"] > 0]
     rhs = [name(x) for x in rows if x["pred_margin"] <= 0]
@@ -347,8 +379,11 @@ def run(chk):
                 ["postal_code", "county_classification", "county_fips", "unit"], ["county_classification", "unit", "county_fips", "postal_code"]]
     aseed = rng.randint(0, 2**31)
     aouts = core.pmap(api_job, [(aseed, a) for a in agg_sets])
+    douts = core.pmap(api_job, [(rng.randint(0, 2**31), ["postal_code", "district", "unit"], off) for off in ("H", "Y", "Z")])
     ref = None
-    for o in aouts:
+    for o in aouts + douts:
+        if len(o["job"]) > 2:
+            ref = None          # district-office runs are elections of their own: no comparison across them
         chk.count({"api_aggs": o["job"][1]}, nontrivial=True, sample={"aggregates": o["job"][1], "summary": o.get("summary") or o.get("sum_exc") or o.get("exc")})
         replay = {"kind": "api", "job": o["job"]}
         if not o["ok"]:
